@@ -29,7 +29,9 @@ type sessAn struct {
 	run        *sessRun
 	label      string
 	lines      []string
-	cut        bool
+	cut        bool // no longer used for cutting: kept false
+	closing    bool // the X line has been written: from here on only emissions are recorded (S lines) and only content equality is judged
+	xAt        int  // index in lines of the X line (-1: none yet)
 	emits      [2]int             // number of S lines per side
 	wN         [2]int             // bytes written by side
 	rN         [2]int             // bytes read by side (of the other side's data)
@@ -79,7 +81,7 @@ func analyse(r *vh.Run, res *schedResult) schedSummary {
 	ans := make([]*sessAn, len(res.sess))
 	bySID := map[uint32]*sessAn{}
 	for i, s := range res.sess {
-		a := &sessAn{run: s, srcs: map[string]bool{}, fails: map[string]string{}}
+		a := &sessAn{run: s, srcs: map[string]bool{}, fails: map[string]string{}, xAt: -1}
 		for side := 0; side < 2; side++ {
 			a.recvd[side] = map[uint32]bool{}
 			a.tx[side] = map[uint32]txInfo{}
@@ -108,7 +110,7 @@ func analyse(r *vh.Run, res *schedResult) schedSummary {
 					continue
 				}
 				a := ans[idx]
-				if a.cut {
+				if a.closing {
 					continue
 				}
 				switch f[0] {
@@ -126,7 +128,9 @@ func analyse(r *vh.Run, res *schedResult) schedSummary {
 					}
 					a.rN[side] += len(e.Data)
 				case "X":
-					a.cut = true
+					a.closing = true
+					a.xAt = len(a.lines)
+					a.lines = append(a.lines, fmt.Sprintf("X %d", side))
 				}
 				continue
 			}
@@ -139,13 +143,7 @@ func analyse(r *vh.Run, res *schedResult) schedSummary {
 			}
 			m := seg.Meta
 			a := bySID[m.SessionID]
-			if a == nil || a.cut {
-				continue
-			}
-			if m.Proto == 4 || m.Proto == 5 {
-				// mieru itself closed the session (abandonment, or the peer's Close): close segments are not part of the case
-				a.cut = true
-				a.selfClosed = true
+			if a == nil {
 				continue
 			}
 			side := 0
@@ -153,6 +151,13 @@ func analyse(r *vh.Run, res *schedResult) schedSummary {
 				side = 1
 			} else {
 				a.srcs[e.Src] = true
+			}
+			if (m.Proto == 4 || m.Proto == 5) && !a.closing {
+				// mieru itself closed the session (abandonment, or the peer's Close) before the driver did: same as a Close here
+				a.closing = true
+				a.selfClosed = true
+				a.xAt = len(a.lines)
+				a.lines = append(a.lines, fmt.Sprintf("X %d", side))
 			}
 			if side == 1 && m.Seq == 0 && sequenced(m.Proto) && m.Proto != 3 {
 				a.srvFirst = true
@@ -167,7 +172,7 @@ func analyse(r *vh.Run, res *schedResult) schedSummary {
 			a.lines = append(a.lines, fmt.Sprintf("S %d %d %d %d %d %d %s", side, m.Proto, m.Seq, un, win, frag, vh.Hex(seg.Payload)))
 			a.nS++
 			// ---- oracle over the decoded emission
-			if m.Proto >= 6 && m.Proto <= 11 {
+			if m.Proto >= 6 && m.Proto <= 11 && !a.closing {
 				if win == 0 {
 					a.win0++
 				}
@@ -185,7 +190,8 @@ func analyse(r *vh.Run, res *schedResult) schedSummary {
 							side, m.Seq, old.proto, ti.proto, old.frag, ti.frag, old.sum == ti.sum, e.ID)
 					}
 				} else {
-					if m.Seq != a.next[side] {
+					if m.Seq != a.next[side] && !a.closing {
+						// (after Close queued segments may be discarded and the close response bypasses the queue: gaps are legitimate there)
 						a.failf("seq-gap", "side %d first transmission of seq %d where seq %d was expected (datagram id %d)", side, m.Seq, a.next[side], e.ID)
 					}
 					a.tx[side][m.Seq] = ti
@@ -196,7 +202,7 @@ func analyse(r *vh.Run, res *schedResult) schedSummary {
 			}
 		case "udp-recv":
 			o, ok := owners[e.ID]
-			if !ok || o.s.cut {
+			if !ok || o.s.closing {
 				continue
 			}
 			a := o.s
@@ -230,7 +236,15 @@ func analyse(r *vh.Run, res *schedResult) schedSummary {
 		errs := append([]string(nil), s.errs...)
 		s.mu.Unlock()
 		if complete && len(errs) == 0 {
-			a.lines = append(a.lines, "F")
+			// the completion claim stands at the moment of Close (the acceptor ignores everything but emissions afterwards)
+			if a.xAt >= 0 {
+				a.lines = append(a.lines[:a.xAt], append([]string{"F"}, a.lines[a.xAt:]...)...)
+			} else {
+				a.lines = append(a.lines, "F")
+			}
+			sum.complete++
+		} else if s.spec.Shape == "close-race" {
+			// closed on purpose while a Write was in progress: only the safety checks apply
 			sum.complete++
 		} else if counts && len(errs) == 0 {
 			// every byte arrived but some differ: bytes-differ is already recorded
